@@ -30,7 +30,7 @@ func swapASCIICase(s string) string {
 }
 
 // caseSinks runs engine C over the packages that interpret CSS text.
-func caseSinks(p *core.Prog) (sinks []core.CaseSink, nFns int) {
+func caseSinks(p *core.Prog) (sinks, folds []core.CaseSink, nFns int) {
 	ct := core.NewCaseTaint(p, []*ssa.Function{p.Fn("utils", "AsciiLower"), p.Fn("css/selector", "toLowerASCII"), p.Lookup("strings.ToLower")})
 	scope := func(fn *ssa.Function) bool {
 		if fn.Pkg == nil {
@@ -47,6 +47,7 @@ func caseSinks(p *core.Prog) (sinks []core.CaseSink, nFns int) {
 			continue
 		}
 		nFns++
+		folds = append(folds, ct.UnicodeFolds(fn)...)
 		ss := ct.Sinks(fn)
 		// a function that tests both capitalisations of a constant explicitly (the serializer's e/E) is case-complete
 		have := map[string]bool{}
@@ -71,12 +72,17 @@ func c08(c *core.Check) {
 	c.Assume = []string{"String.Value, URL.Value, Hash.Value and Literal.Value are case-sensitive or letter-free by CSS and are not sources", "a raw value parked in a struct field and compared elsewhere is not followed (heap flows)"}
 
 	r1 := c.Rule("R1", "text that CSS treats ASCII case-insensitively (identifier, at-keyword, unit, function name, declaration name) is never compared with, searched for, or looked up under a constant containing an ASCII letter before it has been ASCII-lowercased (custom property names, recognised by the -- prefix test, excepted)", 1)
-	sinks, n := caseSinks(p)
+	sinks, folds, n := caseSinks(p)
 	for _, s := range sinks {
 		key := fmt.Sprintf("%s | %s %q", core.FuncName(s.Fn), strings.Fields(s.What)[0], s.Const)
 		r1.Fail(key, p.Pos(s.Instr.Pos()), fmt.Sprintf("raw %s %s %q: a different capitalisation of the same CSS text takes the other branch", s.Source, s.What, s.Const))
 	}
 	r1.OK(fmt.Sprintf("%d functions of the CSS-interpreting packages scanned", n), "-", fmt.Sprintf("%d raw comparisons", len(sinks)))
+	r15 := c.Rule("R15", "case-insensitive CSS text is folded with the ASCII helper only: no identifier, at-keyword, unit, function name or declaration name is passed to strings.ToLower, ToUpper, ToTitle or EqualFold, whose Unicode folding also maps U+212A (Kelvin sign) to k and U+017F (long s) to s", 1)
+	for _, s := range folds {
+		r15.Fail(core.FuncName(s.Fn)+" | "+s.What+" of "+strings.Fields(s.Source)[0], p.Pos(s.Instr.Pos()), fmt.Sprintf("raw %s folded with %s: text that is not an ASCII spelling of a keyword (ba\u212Aground) is accepted as one", s.Source, s.What))
+	}
+	r15.OK(fmt.Sprintf("%d functions of the CSS-interpreting packages scanned", n), "-", fmt.Sprintf("%d Unicode folds of raw text", len(folds)))
 
 	// ---- R2 shorthand tables
 	r2 := c.Rule("R2", "NewShortand and Shortand.String are inverse bijections over the Shortand constants; every constant has a non-nil expander; a function wrapped by genericExpander(names…) only builds namedTokens whose constant name is one of names; the four longhands of each four-sides shorthand exist", 107)
